@@ -185,8 +185,8 @@ var checks = []Check{
 			{Pkg: "proc/redis", Scenarios: []string{"C02/split", "C02/banned-pipeline", "C02/banned-pipeline-faults"}, Shards: 8, QuickS: 60, ThoroughS: 240},
 			{Pkg: "proc/redis", Scenarios: []string{"C02/split-race"}, Race: true, Shards: 1, QuickS: 60, ThoroughS: 240},
 			{Pkg: "proc/redis", Scenarios: []string{"C02/stack-race"}, Race: true, Shards: 1, QuickS: 120, ThoroughS: 240},
-			{Pkg: "proc/redis", Scenarios: []string{"C02/client"}, Shards: 16, QuickS: 80, ThoroughS: 240},
-			{Pkg: "proc/redis", Scenarios: []string{"C02/upstream"}, Shards: 16, QuickS: 80, ThoroughS: 240},
+			{Pkg: "proc/redis", Scenarios: []string{"C02/client"}, Shards: 16, QuickS: 150, ThoroughS: 240},
+			{Pkg: "proc/redis", Scenarios: []string{"C02/upstream"}, Shards: 16, QuickS: 120, ThoroughS: 240},
 			{Pkg: "proc/redis", Scenarios: []string{"C09/redis-collect"}, Shards: 8, QuickS: 90, ThoroughS: 240}, // a backend client stopped while the hot-key collection runs: later requests must still be answered
 			{Pkg: "proc/redis", Scenarios: []string{"C02/redirect-target", "C02/scan-host-change", "C02/notice-many"}, Shards: 16, QuickS: 180, ThoroughS: 240},
 			{Pkg: "proc/redis", Scenarios: []string{"C02/upstream-redirect"}, Shards: 16, QuickS: 150, ThoroughS: 240},
